@@ -502,11 +502,11 @@ def run(ctx, replay_jobs=None, replay_glue=None):
         jobs = f4_probe_jobs()
     else:
         jobs = load_corpus() + f4_probe_jobs() + make_edge_jobs(rng)
-        for _ in range(ctx.n(700, 7000)):
+        for _ in range(ctx.n(700, 5000)):
             jobs.append(make_x_job(rng, gen_table_x(rng)))
-        for _ in range(ctx.n(500, 5000)):
+        for _ in range(ctx.n(500, 4000)):
             jobs.append(make_d_job(rng, gen_table_d(rng)))
-        for _ in range(ctx.n(500, 5000)):
+        for _ in range(ctx.n(500, 4000)):
             jobs.append(make_g_job(rng, gen_table_g(rng)))
     run_impl(ctx, jobs)
     # determinism on the implementation: the same job again gives the same answers (fresh process, after reset)
